@@ -1700,6 +1700,13 @@ func (fr *frame) execStmt(p *Path, s ast.Stmt) []*Path {
 				for _, nm := range vs.Names {
 					obj := fr.info.Defs[nm].(*types.Var)
 					for _, q := range ps {
+						if named, ok := obj.Type().(*types.Named); ok {
+							// var x T for a repository struct: a zero object held by value
+							if r, ok := allocZero(q, named); ok {
+								q.Vars[obj] = ValStructRef{Ref: r, T: named}
+								continue
+							}
+						}
 						q.Vars[obj] = zeroValueOf(c, obj.Type())
 					}
 				}
